@@ -497,3 +497,16 @@ def c03_7(ctx: Ctx) -> RuleResult:
         raise AnalysisError(f"only {n} conditioned uses found in the evaluation pipeline")
     res.floor = 10
     return res
+
+
+@rule(P)
+def c03_8(ctx: Ctx) -> RuleResult:
+    """Shared with C01.5: the reduced ensemble's estimate - the N of the N/(N-1) correction is the number of positive
+    weights of *this* call (after failures were zeroed), not a value kept from an earlier evaluation."""
+    from .c01 import c01_5
+
+    r = c01_5(ctx)
+    for i in r.instances:
+        i.rule = "C03.8"
+    r.rule, r.title = "C03.8", "estimators see the reduced ensemble of each call: mean and stddev (N = positive weights of this call) as defined"
+    return r
